@@ -440,7 +440,13 @@ Definition run_disp (c impl : sexp) : sexp :=
                     && forallb (fun p => sexp_eqb (fst p) (snd p)) (combine l1 l2) in
   let v_c19_hist := same i_seq i_fresh in
   let v_c19_conc := match i_conc with [] => true | _ => same i_conc i_fresh end in
-  let kf7 := existsb (fun h => Z.eqb (sx_int (sx_nth 0 h)) 1) hist && d_encoding cfg in
+  (* K-C07-1: ServeHTTP, container encoding on, the selected route switches it off *)
+  let kf7 := d_encoding cfg &&
+             existsb (fun h => Z.eqb (sx_int (sx_nth 0 h)) 1 &&
+                               match route_request O (d_table cfg) (sx_request (sx_nth 1 h)) with
+                               | RInvoke _ r _ => match r_enc r with Some false => true | _ => false end
+                               | _ => false
+                               end) hist in
   let cls := (if existsb (fun r => match r with Panicked _ _ => true | _ => false end) results then "panic-escaped"
               else if existsb (fun r => Nat.ltb 0 (st_recovered (state_of r))) results then "recovered"
               else if existsb (fun r => match st_comp (state_of r) with Some _ => true | None => false end) results then "encoded"
